@@ -25,3 +25,9 @@ Proof.
   unfold human_text_bytes. destruct ds as [|d r]; [reflexivity|].
   destruct (human_text_all_ok (split_on 10 input) context (d :: r)) as [t Ht]. rewrite Ht. reflexivity.
 Qed.
+
+Theorem human_text_bytes_ok input context ds : exists t, human_text_bytes input context ds = Ok t.
+Proof.
+  unfold human_text_bytes. destruct ds as [|d r]; [eexists; reflexivity|].
+  exact (human_text_all_ok (split_on 10 input) context (d :: r)).
+Qed.
